@@ -90,7 +90,7 @@ OPS = [
     Op("add64", "OVERFLOW", lambda x, y: "%s + %s" % (x, y), [(I64_MAX, 1), (I64_MAX - 5, 6), (I64_MIN, -1), (2 ** 62, 2 ** 62)]),
     Op("sub64", "OVERFLOW", lambda x, y: "%s - %s" % (x, y), [(I64_MIN, 1), (I64_MAX, -1), (0, I64_MIN), (-2, I64_MAX)]),
     Op("mul64", "OVERFLOW", lambda x, y: "%s * %s" % (x, y), [(2 ** 32, 2 ** 31), (I64_MAX, 2), (I64_MIN, -1), (3037000500, 3037000500)]),
-    Op("neg64", "OVERFLOW", lambda x, y: "-(%s) + %s - %s" % (x, y, y) if False else "-(%s)" % x, [(I64_MIN, 1)]),
+    Op("neg64", "OVERFLOW", lambda x, y: "-(%s)" % x, [(I64_MIN, 1)]),
     Op("divmin64", "OVERFLOW", lambda x, y: "%s / %s" % (x, y), [(I64_MIN, -1)]),
     Op("modmin64", "OVERFLOW", lambda x, y: "%s %% %s" % (x, y), [(I64_MIN, -1)]),
     Op("add32", "OVERFLOW", _i32("({x} + {y}).to_int64()"), [(I32_MAX, 1), (I32_MIN, -1), (2 ** 30, 2 ** 30)]),
